@@ -8,6 +8,7 @@ import (
 	"bytes"
 	"crypto"
 	"crypto/ecdsa"
+	"crypto/hmac"
 	"crypto/rand"
 	"crypto/rsa"
 	"crypto/sha1"
@@ -21,6 +22,7 @@ import (
 	"strings"
 	"time"
 	"unicode"
+	"unicode/utf16"
 	"unicode/utf8"
 
 	"github.com/tjfoc/gmsm/pkcs12"
@@ -624,6 +626,11 @@ func sameKey17(want interface{}, got interface{}) bool {
 // decode through one API; returns "key+N" when the key and the N certificates are the bundle's, "error", or a description
 func (b *bundle17) decode(der []byte, api, pw string) string {
 	switch api {
+	case "StdVerify":
+		if !stdMacOK(der, pw) {
+			return "error"
+		}
+		return fmt.Sprintf("key+%d", len(b.certs))
 	case "DecodeAll":
 		k, certs, err := pkcs12.DecodeAll(der, pw)
 		if err != nil {
@@ -716,6 +723,96 @@ func stripMac(der []byte) ([]byte, error) {
 		Version  int
 		AuthSafe asn1.RawValue
 	}{pfx.Version, pfx.AuthSafe})
+}
+
+// An independent reader of the integrity protection of a PFX, written from RFC 7292 and sharing nothing with the package:
+// the password as a BMPString (appendix B.1: UTF-16 big endian code units followed by a 00 00 terminator), the MAC key from
+// the key derivation of appendix B.2 (SHA-1, ID 3), HMAC-SHA-1 over the content of the authenticated safe.  "With that
+// password" in the statement means the password in this encoding: a bundle the package writes must pass this reader with
+// the password and with no other, or no other implementation could open it (and near-miss passwords might).
+func stdBMP(pw string) ([]byte, bool) {
+	if !utf8.ValidString(pw) {
+		return nil, false
+	}
+	var out []byte
+	for _, u := range utf16.Encode([]rune(pw)) {
+		out = append(out, byte(u>>8), byte(u))
+	}
+	return append(out, 0, 0), true
+}
+
+func stdP12KDF(pw, salt []byte, id byte, iter, n int) []byte {
+	const u, v = 20, 64
+	fill := func(x []byte) []byte {
+		if len(x) == 0 {
+			return nil
+		}
+		out := make([]byte, v*((len(x)+v-1)/v))
+		for i := range out {
+			out[i] = x[i%len(x)]
+		}
+		return out
+	}
+	I := append(fill(salt), fill(pw)...)
+	D := bytes.Repeat([]byte{id}, v)
+	var out []byte
+	for len(out) < n {
+		a := sha1.Sum(append(append([]byte(nil), D...), I...))
+		A := a[:]
+		for i := 1; i < iter; i++ {
+			t := sha1.Sum(A)
+			A = t[:]
+		}
+		out = append(out, A...)
+		B := make([]byte, v)
+		for i := range B {
+			B[i] = A[i%u]
+		}
+		for j := 0; j+v <= len(I); j += v {
+			carry := 1
+			for k := v - 1; k >= 0; k-- {
+				x := int(I[j+k]) + int(B[k]) + carry
+				I[j+k], carry = byte(x), x>>8
+			}
+		}
+	}
+	return out[:n]
+}
+
+func stdMacOK(der []byte, pw string) bool {
+	var pfx struct {
+		Version  int
+		AuthSafe struct {
+			Type    asn1.ObjectIdentifier
+			Content asn1.RawValue `asn1:"tag:0,explicit"`
+		}
+		MacData struct {
+			Mac struct {
+				Alg    pkix.AlgorithmIdentifier
+				Digest []byte
+			}
+			Salt []byte
+			Iter int `asn1:"optional,default:1"`
+		} `asn1:"optional"`
+	}
+	if rest, err := asn1.Unmarshal(der, &pfx); err != nil || len(rest) != 0 || len(pfx.MacData.Mac.Digest) == 0 {
+		return false
+	}
+	if !pfx.MacData.Mac.Alg.Algorithm.Equal(asn1.ObjectIdentifier{1, 3, 14, 3, 2, 26}) || pfx.MacData.Iter < 1 || pfx.MacData.Iter > 1<<20 {
+		return false
+	}
+	var data []byte
+	if _, err := asn1.Unmarshal(pfx.AuthSafe.Content.Bytes, &data); err != nil {
+		return false
+	}
+	bmp, ok := stdBMP(pw)
+	if !ok {
+		return false
+	}
+	key := stdP12KDF(bmp, pfx.MacData.Salt, 3, pfx.MacData.Iter, 20)
+	m := hmac.New(sha1.New, key)
+	m.Write(data)
+	return hmac.Equal(m.Sum(nil), pfx.MacData.Mac.Digest)
 }
 
 // ---- case runner ----
